@@ -671,12 +671,12 @@ def case_batch(ctx, case):
         if parallel:
             # navis uses multiprocessing.Pool; Pool.terminate() can dead-lock in CPython when an exception leaves the
             # `with` block while workers still hold a queue lock. The call runs in a forked child with a time limit.
-            ans = _in_child(summarised, 120)
+            ans = _in_child(summarised, 30)
             if ans is None:
                 ctx.count('parallel_pool_timeout', fmt)
                 if not any('multiprocessing.Pool dead-lock' in n for n in ctx.notes):
                     ctx.notes.append('a parallel batch read hit the CPython multiprocessing.Pool dead-lock on terminate(); the case was '
-                                     'abandoned after 120 s (not a property violation, not counted)')
+                                     'abandoned after 30 s (not a property violation, not counted)')
                 return
             st, got = ans
         else:
@@ -1225,7 +1225,7 @@ def gen_cases(ctx):
                             errors=r.choice(['raise', 'log', 'ignore']), bad=sorted(r.sample(range(k), min(nb, k))),
                             how=[r.choice(['misaligned', 'garbage', 'empty', 'misaligned', 'aligned', 'count_up'])],
                             pattern=r.choice(['id', 'name_id']),
-                            parallel=(2 if r.random() < (0.02 if ctx.quick() else 0.1) else False), seed=S())
+                            parallel=(2 if r.random() < (0.02 if ctx.quick() else 0.05) else False), seed=S())
     # exhaustive small scope: every subset of corrupted files × policy × container
     for k in ((1, 2) if ctx.quick() else (1, 2, 3, 4)):
         for mask in range(2 ** k):
